@@ -11,6 +11,20 @@ TRUST = ('TLC/SANY (and Apalache where named), the JSON bridge between TLC and t
          'guards the bridge. ')
 
 CHECKS = {
+    'C16': dict(
+        technique='TLA+ codecs on code-point / byte sequences (spec/Text.tla: UTF-8 encoder and validating decoder, UTF-16 with BOM, Latin-1, ASCII; error policies) with RoundTrip / StrictFailsExactly / IgnoreNeverFails checked by TLC on every text up to length 3 over 12 boundary code points; branch contracts SafeDecode / SafeEncode / ToUtf8; to_slug as a transducer over 13 character classes with SlugAlphabet / SlugSingleHyphens / SlugIdempotent; every case executed and compared byte for byte',
+        category='model_checking',
+        text='The four modelled encodings are specified independently of Python\'s codecs, and TLC proves on the specification that '
+             'decoding inverts encoding for every representable text, that strict encoding fails exactly on unrepresentable code '
+             'points and that ignore/replace never fail. 17k cases (round trips, three error policies, bytes produced under one '
+             'encoding and handed over under another: UTF-8 fallback, transcoding unless the two names agree case-insensitively, '
+             'empty input, type contract) are replayed with encoding names in random letter case and compared byte for byte, '
+             'including object identity where the contract says the argument is returned. to_slug is compared with the transducer '
+             'on all 31k/400k class sequences (two concretisations each), plus alphabet, single hyphens and idempotence on the '
+             'concrete output.',
+        design_ref='6/C16',
+        note=TRUST + 'cp1252, shift_jis, koi8-r, utf-32, big5, iso8859-15 are held to the branch contract and the round trip through '
+             'Python\'s own codec only (table-driven encodings are not transcribed into TLA+).'),
     'C20': dict(
         technique='TLA+ transition systems (spec/Files.tla): the checksum read loop (Read; invariants Tiled, WholeContent, OnlyLastShort) over every content length 0..200 x chunk size, and a file-system model over nested paths with ensure_tree / delete_if_exists / write_to_tempfile (Idempotent, StaysWellFormed) plus the errno filter table; real read calls observed through open() and validated by Trace_Files; every fs edge executed on a scratch directory; every errno injected',
         category='model_checking',
